@@ -242,6 +242,8 @@ def region_walk(prog, modname, fi):
                 walk(st.orelse, ef)
                 # statements after an if whose both branches return are unreachable; keep simple
                 if _all_return(st.body) and _all_return(st.orelse): return
+            elif isinstance(st, (ast.Assign, ast.AugAssign, ast.Expr)):
+                exprs(st.value, env)
             elif isinstance(st, ast.Return):
                 if st.value is not None:
                     if isinstance(st.value, ast.IfExp):
@@ -312,6 +314,23 @@ def rule_guard(run):
                     run.violated(key, 'sat() returns None here and the comparison p > None is meaningless/raises: %s' % bad,
                                  where=reg.where(call))
                 else: run.ok(key, where=reg.where(call))
+    # which boundary where: the saturation line separates regions 1/2 up to 350 degC only, the B23 curve regions 2/3 from there to 590
+    for f in facts:
+        if f[0] != 'call': continue
+        _, call, env = f[:3]
+        if call.func.id in ('sat', 'b23p') and len(call.args) == 1 and isinstance(call.args[0], ast.Name):
+            iv = env.get(call.args[0].id, Interval())
+            key = 'IAPWS97.region :: %s(t) used as a region boundary for t in %r' % (call.func.id, iv)
+            if call.func.id == 'sat':
+                if iv.hi <= 350.0: run.ok(key, where=reg.where(call))
+                else:
+                    run.violated(key, 'the saturation line is consulted for temperatures up to %s degC; above 350 degC the boundary between '
+                                 'regions 2 and 3 is the B23 curve, which lies below saturation there, so states between the two curves are '
+                                 'given the wrong region' % iv.hi, where=reg.where(call))
+            else:
+                if iv.lo >= 350.0 and iv.hi <= 590.0: run.ok(key, where=reg.where(call))
+                else:
+                    run.violated(key, 'the 2/3 boundary curve is consulted for t in %r; it is defined from 350 to 590 degC' % iv, where=reg.where(call))
     if nret < 3: run.unknown('IAPWS97.region :: returns', 'only %d classified returns found' % nret, where=reg.where())
     # closed saturation interval, exact constants
     t_iv = sat_env.get('t')
@@ -459,6 +478,29 @@ def rule_endpoint(run):
         else:
             run.violated(key, 'sat(%r) = %r lies outside tsat\'s validity interval %r, so tsat(sat(t)) returns None at this end point: '
                          'the two are not inverses on the closed saturation interval' % (t, p, p_iv), where='IAPWS97.py (tsat)')
+    # the 2/3 boundary pair: b23t must accept b23p(t) at both ends of the boundary used by region() (when b23t restricts its range)
+    b23p_, b23t_ = prog.func('IAPWS97.b23p'), prog.func('IAPWS97.b23t')
+    genv = dict(env)
+    for name in ('nr23',):
+        v = prog.fold_global(MOD, name)
+        if v is TOP: raise AnalysisError('constant %s does not fold' % name)
+        genv[name] = v
+    guards = [st for st in b23t_.node.body if isinstance(st, ast.If)]
+    tends = sorted(set([f[2]['t'].lo for f in facts if f[1] == 3 and 't' in f[2]] + [f[2]['t'].hi for f in facts if f[1] == 3 and 't' in f[2]])) or [350.0, 590.0]
+    for t in tends:
+        key = 'IAPWS97.b23p/b23t :: end point t = %s of the 2/3 boundary' % t
+        if not guards:
+            run.ok(key, 'b23t does not restrict its argument'); continue
+        try:
+            funcs = {'sat': sat.node, 'b23p': b23p_.node}
+            p = Interp(genv, extra={'sqrt': math.sqrt}, funcs=funcs).call_function(b23p_.node, [t])
+            inside = Interp(dict(genv, **{b23t_.params[0]: p}), extra={'sqrt': math.sqrt}, funcs=funcs).expr(guards[0].test)
+        except AnalysisError as e:
+            run.unknown(key, 'not evaluable by constant folding: %s' % e, where=b23t_.where()); continue
+        if inside: run.ok(key, {'b23p': p})
+        else:
+            run.violated(key, 'b23p(%r) = %r does not pass b23t\'s own range test `%s`: b23t(b23p(t)) returns no value at this end of the boundary, '
+                         'so the two forms are not inverses on the closed interval' % (t, p, norm(guards[0].test)), where=b23t_.where(guards[0]))
     run.trust('whitelist interpreter evaluating the pure arithmetic function sat() at two constants (exact constant folding, math.sqrt allowed)')
 
 
@@ -532,7 +574,14 @@ def rule_divsafe(run):
     run.trust('interval evaluator ivarith.py (outward rounding by nextafter; +, -, *, /, sqrt, squares)')
 
 
+def rule_memo(run):
+    run.rule('MEMO', 'a result remembered between calls (memo dictionary, caching decorator) is keyed by every parameter it depends on', floor=1)
+    from .memo import memo_rule
+    memo_rule(run, ['IAPWS97'])
+
+
 def check(run):
+    run.guarded('MEMO', rule_memo)
     run.guarded('DIVSAFE', rule_divsafe)
     run.guarded('CHAIN', rule_chain)
     run.guarded('USE', rule_use)
